@@ -7,7 +7,31 @@ _CLAUSES = ()
 _JUDGE = None
 
 
+def prelude(cfg):
+    """process-wide state must not leak from one composition into the next: a configuration flagged 'prelude' is first run ONCE to completion
+    along the default path (fresh objects, result discarded) in the same process, then explored; a replay repeats exactly this history"""
+    if cfg.get("prelude"):
+        try:
+            sched.run_path({k: v for k, v in cfg.items() if k not in ("prelude", "stateless")}, [], default=True)
+        except BaseException:  # noqa - whatever the first run does is judged when the configuration itself is explored
+            pass
+
+
+def with_prelude(cases, limit=80):
+    """copies (flagged 'prelude') of the first snapshot-mode configuration per (family, adapter kinds on the links)"""
+    seen, out = set(), []
+    for c in cases:
+        if c.get("stateless") or c.get("unit_us"):
+            continue
+        key = (c.get("family"), tuple(sorted({t[0] for l in c["links"] for t in l["chain"]})), tuple(sorted(ci["kind"] for ci in c["comps"])))
+        if key not in seen and len(out) < limit:
+            seen.add(key)
+            out.append(dict(c, prelude=True))
+    return out
+
+
 def _work(cfg):
+    prelude(cfg)
     if cfg.get("stateless"):
         res = sched.explore_stateless(cfg, cfg["stateless"])
     else:
@@ -19,6 +43,8 @@ def _work(cfg):
     for k, v in res["outcomes"].items():
         cnt["outcome_" + k] = v
     cnt["family_" + cfg.get("family", "?")] = 1
+    if cfg.get("prelude"):
+        cnt["explored_after_a_first_run_in_the_same_process"] = 1
     if res["stats"].get("updates_of_upstream_dependency", 0) > 0 or res["stats"].get("updates_with_time_ties", 0) > 0:
         out["nontrivial"] = 1
     if res["capped"]:
@@ -51,6 +77,7 @@ def run_cases(cases, clauses, agg, judge=None, seed=0):
     global _CLAUSES, _JUDGE
     _CLAUSES, _JUDGE = tuple(clauses), judge
     cases = list(cases)
+    cases += with_prelude(cases)
     k = seed % max(1, len(cases))
     cases = cases[k:] + cases[:k]
     # big cases first for load balance
@@ -61,6 +88,7 @@ def run_cases(cases, clauses, agg, judge=None, seed=0):
 def replay_case(case, clauses, judge=None):
     cfg, path = case["cfg"], case.get("path")
     out = []
+    prelude(cfg)
     if path is None:
         res = sched.explore_stateless(cfg, cfg["stateless"]) if cfg.get("stateless") else sched.explore(cfg, max_states=cfg.get("max_states", 60000))
         vs = res["violations"]
